@@ -89,6 +89,7 @@ func vfCheckRecovered(r []byte, originals map[int][]byte) (int, string) {
 // C07
 
 type vfC07Cfg struct {
+	rd, rp int // when set: the decoder was created with this ratio and adopted the sender's by auto-tuning during `pre`
 	d, p   int
 	base   uint32
 	fresh  bool // decoder has not seen the stream before (otherwise it tracked the preceding groups)
@@ -99,6 +100,9 @@ type vfC07Cfg struct {
 // vfC07Seq feeds one arrival sequence (indices into the focus alphabet) to a new decoder and checks the oracle.
 func vfC07Seq(cf vfC07Cfg, pre, alphabet, stream []vfFecPkt, seq []int) (sig, msg string) {
 	dec := newFECDecoder(cf.d, cf.p)
+	if cf.rd > 0 {
+		dec = newFECDecoder(cf.rd, cf.rp)
+	}
 	for _, x := range pre {
 		for _, r := range dec.decode(fecPacket(x.raw)) {
 			defaultBufferPool.Put(r)
@@ -175,6 +179,7 @@ func vfC07(c *hx.Ctx) {
 		"n=d+p packets plus two packets of the next group (all subsets, orders, duplicates, late arrivals, interleaving; for groups of more than 5 packets: sequences up to a shorter length plus EVERY arriving subset in four orders); oracle at every step: exactly the not-yet-received data packets come out when the d-th distinct packet arrives, " +
 		"byte-identical with exact length and zero padding, nothing else ever. Non-trivial = sequences in which a recovery is due.")
 	vfC07Session(c)
+	vfC07Tuned(c)
 	ratios := [][2]int{{1, 1}, {1, 2}, {2, 1}, {2, 2}, {3, 1}, {3, 2}, {3, 3}, {4, 2}, {5, 3}, {10, 3}}
 	if !c.Quick() {
 		ratios = append(ratios, [2]int{6, 2}, [2]int{4, 4})
@@ -388,6 +393,102 @@ func vfC07(c *hx.Ctx) {
 			}
 		}
 	}
+}
+
+// vfC07Tuned: the receiver was configured with another ratio and adopted the sender's by auto-tuning during a loss-free
+// warm-up; then every arriving subset of the focus group (ascending and descending order, plus two packets of the next
+// group) — at the wrap value, just before it, at 2^31 and in the middle of the id space.
+func vfC07Tuned(c *hx.Ctx) {
+	if c.Skip("arrivals-after-autotune") || (c.Of > 1 && c.Shard != 4%c.Of) {
+		return
+	}
+	start := time.Now()
+	u := &hx.Unit{Name: "arrivals-after-autotune", Kind: "enum", Exhaustive: true, Params: map[string]any{"sender_ratios": "2/1 3/2 4/2 5/3", "receiver_configured": "10/3 (3/2 for none of these), 1/1",
+		"positions": "wrap value, one and two groups before it, 2^31, mid-space", "arrivals": "every subset, ascending and descending, plus two packets of the next group"}}
+	for _, dp := range [][2]int{{2, 1}, {3, 2}, {4, 2}, {5, 3}} {
+		d, p := dp[0], dp[1]
+		n := d + p
+		size := uint32(n)
+		paws := uint32(0xffffffff) / size * size
+		warm := (258+2*n)/n + 3
+		for _, rdp := range [][2]int{{10, 3}, {1, 1}} {
+			for _, base := range []uint32{0, paws - size, paws - 2*size, (1 << 31) / size * size, 7 * size} {
+				sizes := []int{1, 2, 700, 1400}
+				all := vfFecStreamGap(d, p, uint32((uint64(base)+uint64(paws)-uint64(warm)*uint64(size))%uint64(paws)), warm+2, sizes, -1)
+				pre, stream := all[:warm*n], all[warm*n:]
+				// did the warm-up make the decoder adopt the ratio? (otherwise this is C16's subject)
+				probe := newFECDecoder(rdp[0], rdp[1])
+				for _, x := range pre {
+					for _, r := range probe.decode(fecPacket(x.raw)) {
+						defaultBufferPool.Put(r)
+					}
+				}
+				if probe.dataShards != d || probe.parityShards != p {
+					u.Notes = append(u.Notes, fmt.Sprintf("%d/%d receiver configured %d/%d did not converge in %d groups: skipped", d, p, rdp[0], rdp[1], warm))
+					continue
+				}
+				alphabet := append(append([]vfFecPkt{}, stream[:n]...), stream[n], stream[n+d])
+				g0 := stream[0].group
+				for i := range alphabet {
+					alphabet[i].group -= g0
+				}
+				for i := range stream {
+					stream[i].group -= g0
+				}
+				cf := vfC07Cfg{rd: rdp[0], rp: rdp[1], d: d, p: p, base: base, sizes: sizes}
+				for mask := 1; mask < 1<<n; mask++ {
+					var asc []int
+					for i := 0; i < n; i++ {
+						if mask>>i&1 == 1 {
+							asc = append(asc, i)
+						}
+					}
+					for order := 0; order < 2; order++ {
+						seq := append([]int{}, asc...)
+						if order == 1 {
+							for i, j := 0, len(seq)-1; i < j; i, j = i+1, j-1 {
+								seq[i], seq[j] = seq[j], seq[i]
+							}
+						}
+						seq = append(seq, n, n+1)
+						u.Executions++
+						if len(asc) >= d {
+							u.NonTrivial++
+						}
+						sig, msg := func() (sig, msg string) {
+							defer func() {
+								if r := recover(); r != nil {
+									sig, msg = "C07:decoder-panic:"+vfPanicSiteOf(), fmt.Sprintf("the decoder panicked: %v", r)
+								}
+							}()
+							return vfC07Seq(cf, pre, alphabet, stream, seq)
+						}()
+						if sig != "" {
+							sig += ":receiver-auto-tuned"
+							found := false
+							for _, v := range u.Violations {
+								if v.Signature == sig {
+									v.Count++
+									found = true
+								}
+							}
+							if !found && len(u.Violations) < 6 {
+								u.Violations = append(u.Violations, c.NewViolation("arrivals-after-autotune", u.Params, sig, msg,
+									fmt.Sprintf("sender %d/%d, receiver configured %d/%d and auto-tuned, focus group at id %d, arriving positions %v (order %d)", d, p, rdp[0], rdp[1], base, asc, order)))
+							}
+						}
+					}
+				}
+			}
+		}
+	}
+	u.Samples = append(u.Samples, map[string]any{"sender": "3/2", "receiver_configured": "10/3", "focus_group": "last before the wrap", "arriving": []int{1, 2, 3}})
+	u.EndStatesN = u.Executions
+	if len(u.Violations) > 0 {
+		u.Exhaustive = false
+	}
+	u.WallS = time.Since(start).Seconds()
+	c.AddUnit(u)
 }
 
 // ---------------------------------------------------------------------------------------------
